@@ -20,7 +20,7 @@ pub trait TokP: Payload + Send + Sync + PartialEq + PartialOrd + std::hash::Hash
 impl<T: Payload + Send + Sync + PartialEq + PartialOrd + std::hash::Hash + std::fmt::Debug> TokP for T {}
 
 /// boundary-biased lengths
-pub const LENS: [usize; 34] = [0, 1, 2, 3, 4, 5, 7, 8, 9, 15, 16, 17, 31, 32, 33, 63, 64, 65, 127, 128, 129, 255, 256, 257, 300, 511, 512, 513, 1023, 1024, 1025, 2047, 2048, 4097];
+pub const LENS: [usize; 46] = [0, 1, 2, 3, 4, 5, 7, 8, 9, 15, 16, 17, 31, 32, 33, 63, 64, 65, 127, 128, 129, 255, 256, 257, 300, 511, 512, 513, 1023, 1024, 1025, 2047, 2048, 2049, 2730, 2731, 4095, 4096, 4097, 5461, 8191, 8192, 8193, 16384, 65536, 131072];
 
 /// A scriptable iterator: honest or lying `len()` / `size_hint()`, every callback is a fault point.
 pub struct GenIter<T> {
@@ -170,7 +170,14 @@ impl<Hd: TokP, El: TokP> Engine for CtorEngine<Hd, El> {
         reset_len_asks();
         let _ = viol::take();
         let ctor = pick(c.p(0), CTORS.len());
-        let len = if ctor == 9 || ctor == 11 || ctor == 12 { 1 } else { LENS[pick(c.p(1), LENS.len())] };
+        // the table is boundary-biased; the six largest entries (>= 8191) are drawn rarely
+        let len = if ctor == 9 || ctor == 11 || ctor == 12 {
+            1
+        } else if c.p(1) >= 250 {
+            LENS[40 + (c.p(1) as usize - 250) % 6]
+        } else {
+            LENS[pick(c.p(1), 40) .min(39)]
+        };
         // spare capacity: small, about the length, or more than twice the length
         let spare = match c.p(2) % 4 { 0 => 0, 1 => pick(c.p(2), 20), 2 => len + pick(c.p(2), 9), _ => 2 * len + 1 + pick(c.p(2), 40) };
         let what = format!("{} with {} elements of {} (spare capacity {}, header {})", CTORS[ctor], len, El::tyname(), spare, Hd::tyname());
@@ -326,7 +333,7 @@ impl<Hd: TokP, El: TokP> Engine for CtorEngine<Hd, El> {
 pub struct CopyCtorEngine;
 
 fn copy_case<T: Copy + PartialEq + std::fmt::Debug + Send + Sync + 'static>(what: &mut String, c: &ByteCase, mk: impl Fn(u32) -> T, tname: &str) {
-    let len = LENS[pick(c.p(1), LENS.len())];
+    let len = if c.p(1) >= 250 { LENS[40 + (c.p(1) as usize - 250) % 6] } else { LENS[pick(c.p(1), 40).min(39)] };
     let items: Vec<T> = (0..len).map(|i| mk((i as u32).wrapping_mul(2654435761).wrapping_add(c.p(2) as u32))).collect();
     let which = pick(c.p(3), 3);
     *what = format!("{} over {} x {}", ["Arc::from_header_and_slice", "ThinArc::from_header_and_slice", "Arc::<[T]>::from(&[T])"][which], len, tname);
